@@ -114,11 +114,18 @@ def body_factory(tier, known):
                         net = [ci for ci, c in enumerate(info['cmds'])
                                if NET_RE.match(c)]
                         if len(net) > max_net:
+                            # the commands that refresh what the clone
+                            # believes about the remote are always taken
+                            core = [ci for ci in net if re.search(
+                                r'remote\s+update', info['cmds'][ci])]
+                            rest = [ci for ci in net if ci not in core]
+                            k = max(0, max_net - len(core))
                             idx = data.draw(st.lists(
-                                st.integers(0, len(net) - 1),
-                                min_size=max_net, max_size=max_net,
-                                unique=True), label='net')
-                            net = [net[i] for i in sorted(idx)]
+                                st.integers(0, len(rest) - 1),
+                                min_size=min(k, len(rest)),
+                                max_size=min(k, len(rest)),
+                                unique=True), label='net') if rest else []
+                            net = sorted(core + [rest[i] for i in idx])
                         for ci in net:
                             for kind in ('push_src', 'force_src',
                                          'new_branch'):
